@@ -138,6 +138,34 @@ func c04(args []string) {
 		}
 		jobs = append(jobs, &job{s, exp, cfgs, g})
 	}
+	// directed graphs: parameter sweeps through a 3-port ParamCombinator, file tuples through a 3-port FileCombinator
+	for d, lens := range [][]int{{2, 3, 2}, {1, 2, 3}, {3, 1, 2}} {
+		s := &spec.Spec{Name: fmt.Sprintf("sweep%d", d), MaxTasks: 4, Sources: map[string]string{}}
+		pc := &spec.Proc{Name: "pc", Kind: spec.KParamComb, Ports: []string{"u", "v", "w"}}
+		fc := &spec.Proc{Name: "fc", Kind: spec.KFileComb, Ports: []string{"a", "b", "c"}}
+		s.Procs = append(s.Procs, pc, fc)
+		for i, pt := range []string{"u", "v", "w"} {
+			var vals []string
+			src := &spec.Proc{Name: "fs" + pt, Kind: spec.KFileSource}
+			for k := 0; k < lens[i]; k++ {
+				vals = append(vals, fmt.Sprintf("%s%d", pt, k))
+				f := fmt.Sprintf("cf_%s_%d.txt", pt, k)
+				src.Files = append(src.Files, f)
+				s.Sources[f] = f
+			}
+			fp := []string{"a", "b", "c"}[i]
+			s.Procs = append(s.Procs, &spec.Proc{Name: "ps" + pt, Kind: spec.KParamSource, Values: vals}, src)
+			s.Conns = append(s.Conns, &spec.Conn{From: "ps" + pt + ".out", To: "pc." + pt, Param: true}, &spec.Conn{From: "pc." + pt, To: "sweep." + pt, Param: true},
+				&spec.Conn{From: src.Name + ".out", To: "fc." + fp}, &spec.Conn{From: "fc." + fp, To: "tuple." + fp})
+		}
+		s.Procs = append(s.Procs, &spec.Proc{Name: "sweep", Kind: spec.KCmd, Cmd: spec.BuildCmd("sweep", nil, []spec.PortDecl{{Name: "out"}}, []string{"u", "v", "w"}, nil, nil), Outs: []*spec.Out{{Port: "out", Pattern: "sweep_{p:u}_{p:v}_{p:w}.out"}}},
+			&spec.Proc{Name: "tuple", Kind: spec.KCmd, Cmd: spec.BuildCmd("tuple", []spec.PortDecl{{Name: "a"}, {Name: "b"}, {Name: "c"}}, []spec.PortDecl{{Name: "out"}}, nil, nil, nil)})
+		exp := evalRef(s, nil)
+		if exp.Err != "" {
+			c.Broken("reference cannot evaluate the sweep graph: " + exp.Err)
+		}
+		jobs = append(jobs, &job{s, exp, []Cfg{{Buf: 1, Procs: 4, MaxTasks: 4}, {Buf: 3, Procs: 1, MaxTasks: 4}, {Buf: 128, Procs: 2, MaxTasks: 8}}, 100000 + d})
+	}
 	type flat struct {
 		j *job
 		k int
